@@ -38,7 +38,23 @@ RULE = ('histories of <=25 (quick) / <=60 (thorough) operations over create/touc
         'that select the re-created key by key name, certificate name, Key / Identity / Certificate object, identity '
         'and default identity (after set_default_key / set_default_identity), with and without key_locator; the signer '
         'must sign so that the signature verifies under the key bits the keychain stores for the selected key NOW, and '
-        'every self-signed certificate in the views must verify under the key bits of its key. non-trivial = the '
+        'every self-signed certificate in the views must verify under the key bits of its key. cardinality stratum (9 '
+        'quick / 168 thorough histories on top): ONE identity with n keys, ONE key with n certificates, ONE keychain '
+        'with n identities, n from 1, 2, 31..33, 63..66, 100, 127..130 (the round numbers an implementation may page or '
+        'batch by, and their neighbours; quick: 63/64, 65/66 and one of 100..130 keys every run), a small neighbour '
+        'identity whose key row lies before / amid / after; built in batches (operations executed one by one and '
+        'compared with the model by result, observed and judged against the specification -- folded over the batch -- '
+        'at the end of the batch; key pairs round-robin from the pool); then at that size: all views (iteration, len, '
+        'membership, lookup of every listed item; foreign names probed per view), close+reopen, set default at '
+        'boundary positions (first, last, 32nd, 64th, 65th, 128th ...), signers for keys / certificates at those '
+        'positions; then delete cascades: single items at boundary positions, bulk subsets (first 32/64/65, last '
+        '1/2/33/64/65, every second, a block, random half; del_key / Identity.del_key / del_cert / Key.del_cert / '
+        'del_identity), the whole owner (del_identity, del_key, or key by key), storage failures anywhere inside a '
+        'long cascade (effect 0 .. 4n+5) followed by the repeat; then the SAME signer arguments for the deleted keys '
+        '(key name, certificate name, identity), close+reopen, re-creation under an old name. Oracle after every '
+        'observed step as everywhere (state = specification incl. private-key files, no private key without listed '
+        'key, no signer for a key that is not listed) plus: no row of table keys / certificates that no view lists. '
+        'non-trivial = the '
         'history creates a key and contains a delete, a signer request or a fault; distinct by history hash')
 ASSUMPTIONS = [
     'SQLite executes the triggers of INITIALIZE_SQL as modelled (exercised on every case, not verified)',
@@ -248,10 +264,27 @@ LIVE = []
 SELF_OK = {}         # wire of a self-signed certificate -> its signature verifies under the key bits it carries
 
 
+def _scratch_root():
+    """memory-backed scratch space when there is one (a commit costs no fsync there; durability against power loss
+    is not part of the property), else the default temp dir"""
+    d = '/dev/shm'
+    try:
+        if os.path.isdir(d) and os.access(d, os.W_OK | os.X_OK):
+            st = os.statvfs(d)
+            if st.f_bavail * st.f_frsize > (1 << 28):
+                return d
+    except OSError:
+        pass
+    return None
+
+
+SCRATCH_ROOT = _scratch_root()
+
+
 class Impl:
     def __init__(self, copy_of=None):
         from ndn.security.keychain.keychain_sqlite3 import KeychainSqlite3
-        self.dir = tempfile.mkdtemp(prefix='c15-')
+        self.dir = tempfile.mkdtemp(prefix='c15-', dir=SCRATCH_ROOT)
         self.pib = os.path.join(self.dir, 'pib.db')
         self.tpmdir = os.path.join(self.dir, 'tpm')
         self.fi = FaultInjector()
@@ -976,6 +1009,7 @@ class Gen:
         number of the key pair; two keys may share one)."""
         rng = self.rng
         self.big_n = n
+        self.next_kid, self.next_xkid = 2200, 3200      # the script uses 2000+j / 3000+j (j < n) and 2900..2902
         sc = []
 
         def mat(j):
@@ -1137,19 +1171,19 @@ class Gen:
                 sc.append(([6, ida, keys[p][0]], False))
         signers(positions(nk, 2), extra=True)
         alive = list(range(nk))
-        t = rng.random()
-        if t < 0.35:
+        t = rng.random()                # most often the whole owner is deleted at its full size
+        if t < 0.15:
             for p in positions(nk, rng.choice([1, 2, 3])):
                 sc.append(([9, keys[p][0]] if rng.random() < 0.5 else [11, ida, keys[p][0]], False))
                 alive.remove(p)
-        elif t < 0.6:
+        elif t < 0.3:
             dead = subset(nk)
             batch([[9, keys[p][0]] if rng.random() < 0.5 else [11, ida, keys[p][0]] for p in dead])
             alive = [p for p in alive if p not in set(dead)]
             signers([p for p in positions(nk, 4) if p in dead][:2])
         if rng.random() < 0.3:
             sc.append(([14], False))
-        if rng.random() < 0.85 or not alive:
+        if rng.random() < 0.9 or not alive:
             sc.append(([10, ida], False))
         else:
             batch([[11, ida, keys[p][0]] if rng.random() < 0.5 else [9, keys[p][0]] for p in alive], observe_some=False)
@@ -1168,9 +1202,11 @@ class Gen:
         rng = self.rng
         if self.quiet or self.nofault:      # inside a batch / the observed step that closes a batch
             return None
-        if self.big_n and op[0] in (9, 10, 11) and rng.random() < 0.4:
+        if self.big_n and op[0] in (9, 10, 11):
             # a cascade over many rows: a failure anywhere in it, also late
-            return rng.choice([rng.randrange(0, 4), rng.randrange(0, 4 * self.big_n + 6), rng.randrange(0, 4 * self.big_n + 6)])
+            if rng.random() < 0.3:
+                return rng.choice([rng.randrange(0, 4), rng.randrange(0, 4 * self.big_n + 6), rng.randrange(0, 4 * self.big_n + 6)])
+            return None
         if op[0] == 14 or rng.random() > 0.27:
             return None
         if op[0] == 10:
@@ -1470,14 +1506,15 @@ BIG_SIZES = [1, 2, 31, 32, 33, 63, 64, 65, 66, 100, 127, 128, 129, 130]
 
 
 def big_plan(rng, thorough):
-    """(shape, n) of the histories of the cardinality stratum.  Quick: one identity each with 63/64, 65/66 and
-    100..130 keys plus four more shapes / sizes; thorough: every size in every shape, four times."""
+    """(shape, n) of the histories of the cardinality stratum.  Quick: one identity each with 63/64, 65/66, 100..130,
+    <= 33 and 65..130 keys, two keys with many certificates (63..66 / another size), two keychains with many identities
+    (63..66 / another size); thorough: every size in every shape, four times."""
     if thorough:
         plan = [(sh, n) for sh in ('keys', 'certs', 'ids') for n in BIG_SIZES] * 4
         rng.shuffle(plan)
         return plan
     plan = [('keys', rng.choice([63, 64])), ('keys', rng.choice([65, 66])), ('keys', rng.choice([100, 127, 128, 129, 130])),
-            ('keys', rng.choice([1, 2, 31, 32, 33])),
+            ('keys', rng.choice([1, 2, 31, 32, 33])), ('keys', rng.choice([65, 66, 100, 127, 128, 129, 130])),
             ('certs', rng.choice([63, 64, 65, 66])), ('certs', rng.choice([2, 31, 32, 33, 100, 127, 128, 129, 130])),
             ('ids', rng.choice([63, 64, 65, 66])), ('ids', rng.choice([31, 32, 33, 100, 127, 128, 129, 130]))]
     return plan
